@@ -4,6 +4,7 @@ package main
 
 import (
 	"bytes"
+	"encoding/binary"
 	"encoding/json"
 	"fmt"
 	"io"
@@ -18,23 +19,31 @@ import (
 	"github.com/EliCDavis/polyform/generator/artifact"
 	"github.com/EliCDavis/polyform/generator/artifact/basics"
 	"github.com/EliCDavis/polyform/generator/graph"
+	"github.com/EliCDavis/polyform/formats/gltf"
 	"github.com/EliCDavis/polyform/generator/parameter"
+	"github.com/EliCDavis/polyform/modeling"
 	"github.com/EliCDavis/polyform/nodes"
 	"github.com/EliCDavis/polyform/refutil"
+	"github.com/EliCDavis/vector/vector3"
 )
 
 // ---------------------------------------------------------------- description (replayable)
 type nodeD struct {
-	Kind string `json:"kind"`         // "show" (one parameter input) | "join" (2-3 string inputs)
+	Kind string `json:"kind"`         // "show" (one parameter input) | "join" (2-3 string inputs) | "fshow": a loader that FAILS
+	//                                   (returns "", error) for int values divisible by 3, followed by a node that falls back to the raw parameter
 	P    int    `json:"p,omitempty"`  // show: parameter index
 	In   []int  `json:"in,omitempty"` // join: indices of earlier nodes
 }
 type prodD struct {
 	Name string `json:"name"`
 	Kind string `json:"kind,omitempty"` // "" = text producer on node Node; "bin" = basics.Binary on file parameter P;
-	//                                     "ints" = harness slice artifact on ints parameter P (both keep the slice they were given)
-	Node int `json:"node,omitempty"`
-	P    int `json:"p,omitempty"`
+	//                                     "ints" = harness slice artifact on ints parameter P (both keep the slice they were given);
+	//                                     "gltf" = the repository's gltf.ArtifactNode over Models gltf.ModelNode that share ONE mesh node
+	//                                     (harness TriMesh on int parameter P) and ONE gltf.MaterialNode (roughness = float parameter PB / 16)
+	Node   int `json:"node,omitempty"`
+	P      int `json:"p,omitempty"`
+	PB     int `json:"pb,omitempty"`
+	Models int `json:"models,omitempty"`
 }
 type shapeD struct {
 	Name   string   `json:"name"`
@@ -46,7 +55,7 @@ type shapeD struct {
 // parameters listed by node n's text, in order
 func (s *shapeD) lists(n int) []int {
 	d := s.Nodes[n]
-	if d.Kind == "show" {
+	if d.Kind == "show" || d.Kind == "fshow" {
 		return []int{d.P}
 	}
 	var out []int
@@ -56,6 +65,13 @@ func (s *shapeD) lists(n int) []int {
 	return out
 }
 func (s *shapeD) prodLists(k int) []int {
+	if s.Prods[k].Kind == "gltf" {
+		var out []int
+		for m := 0; m < s.Prods[k].Models; m++ {
+			out = append(out, s.Prods[k].P, s.Prods[k].PB)
+		}
+		return out
+	}
 	if s.Prods[k].Kind != "" {
 		return []int{s.Prods[k].P}
 	}
@@ -63,7 +79,7 @@ func (s *shapeD) prodLists(k int) []int {
 }
 func (s *shapeD) depth(n int) int {
 	d := s.Nodes[n]
-	if d.Kind == "show" {
+	if d.Kind == "show" || d.Kind == "fshow" {
 		return 1
 	}
 	m := 0
@@ -262,6 +278,136 @@ func (d ShowBoolData) Process() (string, error) {
 	return fmt.Sprintf("p%d=%d;", d.c.idx, v), nil
 }
 
+// FailShowData: a loader-like node: fails (zero value + error) for values divisible by 3
+type FailShowData struct {
+	c  *cfg
+	In nodes.NodeOutput[int]
+}
+
+func (d FailShowData) Process() (string, error) {
+	d.c.enter()
+	defer d.c.leave()
+	d.c.j.pause()
+	v := d.In.Value()
+	if v%3 == 0 {
+		return "", fmt.Errorf("p%d: cannot load value %d", d.c.idx, v)
+	}
+	return fmt.Sprintf("p%d=%d;", d.c.idx, v), nil
+}
+
+// MarkData: consumer of a loader: when the loader produced nothing it falls back to the raw parameter
+type MarkData struct {
+	c   *cfg
+	In  nodes.NodeOutput[string]
+	Raw nodes.NodeOutput[int]
+}
+
+func (d MarkData) Process() (string, error) {
+	d.c.enter()
+	defer d.c.leave()
+	s := d.In.Value()
+	d.c.j.pause()
+	if s == "" {
+		return fmt.Sprintf("p%d=%d;", d.c.idx, d.Raw.Value()), nil
+	}
+	return s, nil
+}
+
+// TriMeshData: a mesh of (n+1) triangles, n = an int parameter; shared by all models of a glTF scene
+type TriMeshData struct {
+	c *cfg
+	N nodes.NodeOutput[int]
+}
+
+func (d TriMeshData) Process() (modeling.Mesh, error) {
+	d.c.enter()
+	defer d.c.leave()
+	d.c.j.pause()
+	n := d.N.Value() + 1
+	idx := make([]int, 0, 3*n)
+	pos := make([]vector3.Float64, 0, 3*n)
+	for t := 0; t < n; t++ {
+		idx = append(idx, 3*t, 3*t+1, 3*t+2)
+		pos = append(pos, vector3.New(float64(t), 0., 0.), vector3.New(float64(t), 1., 0.), vector3.New(float64(t), 0., 1.))
+	}
+	d.c.j.pause()
+	return modeling.NewTriangleMesh(idx).SetFloat3Attribute(modeling.PositionAttribute, pos), nil
+}
+
+// SixteenthData: float parameter v -> v/16 (exact), the roughness factor of the shared material
+type SixteenthData struct {
+	c  *cfg
+	In nodes.NodeOutput[float64]
+}
+
+func (d SixteenthData) Process() (float64, error) {
+	d.c.enter()
+	defer d.c.leave()
+	d.c.j.pause()
+	return d.In.Value() / 16, nil
+}
+
+// decodeGLB: per scene node (mesh triangles - 1, roughness * 16)
+func decodeGLB(b []byte) ([]int, bool) {
+	if len(b) < 20 || string(b[0:4]) != "glTF" {
+		return nil, false
+	}
+	l := int(binary.LittleEndian.Uint32(b[12:16]))
+	if 20+l > len(b) {
+		return nil, false
+	}
+	var doc struct {
+		Accessors []struct {
+			Count int `json:"count"`
+		} `json:"accessors"`
+		Materials []struct {
+			Pbr *struct {
+				Roughness *float64 `json:"roughnessFactor"`
+			} `json:"pbrMetallicRoughness"`
+		} `json:"materials"`
+		Meshes []struct {
+			Primitives []struct {
+				Indices  *int `json:"indices"`
+				Material *int `json:"material"`
+			} `json:"primitives"`
+		} `json:"meshes"`
+		Nodes []struct {
+			Mesh *int `json:"mesh"`
+		} `json:"nodes"`
+		Scenes []struct {
+			Nodes []int `json:"nodes"`
+		} `json:"scenes"`
+	}
+	if json.Unmarshal(b[20:20+l], &doc) != nil || len(doc.Scenes) != 1 {
+		return nil, false
+	}
+	var out []int
+	for _, n := range doc.Scenes[0].Nodes {
+		if n < 0 || n >= len(doc.Nodes) || doc.Nodes[n].Mesh == nil {
+			return nil, false
+		}
+		mi := *doc.Nodes[n].Mesh
+		if mi < 0 || mi >= len(doc.Meshes) || len(doc.Meshes[mi].Primitives) != 1 {
+			return nil, false
+		}
+		pr := doc.Meshes[mi].Primitives[0]
+		if pr.Indices == nil || pr.Material == nil || *pr.Indices >= len(doc.Accessors) || *pr.Material >= len(doc.Materials) {
+			return nil, false
+		}
+		cnt := doc.Accessors[*pr.Indices].Count
+		mat := doc.Materials[*pr.Material]
+		if cnt%3 != 0 || cnt < 3 || mat.Pbr == nil || mat.Pbr.Roughness == nil {
+			return nil, false
+		}
+		r := *mat.Pbr.Roughness * 16
+		if r < 0 || r != float64(int(r)) {
+			return nil, false
+		}
+		out = append(out, cnt/3-1, int(r))
+	}
+	return out, true
+}
+
 type Join2Data struct {
 	c *cfg
 	A nodes.NodeOutput[string]
@@ -433,6 +579,13 @@ func build(s *shapeD, init []int, j *jit) *liveGraph {
 			case "ints":
 				outs[k] = (&nodes.Struct[string, ShowIntsData]{Data: ShowIntsData{c: c, In: intss[d.P]}}).Out()
 			}
+		case "fshow":
+			if s.PTypes[d.P] != "int" {
+				panic("fshow needs an int parameter")
+			}
+			f := (&nodes.Struct[string, FailShowData]{Data: FailShowData{c: c, In: ints[d.P]}}).Out()
+			c2 := &cfg{idx: d.P, j: j, overlaps: &g.over}
+			outs[k] = (&nodes.Struct[string, MarkData]{Data: MarkData{c: c2, In: f, Raw: ints[d.P]}}).Out()
 		case "join":
 			switch len(d.In) {
 			case 2:
@@ -455,6 +608,16 @@ func build(s *shapeD, init []int, j *jit) *liveGraph {
 		case "ints":
 			c := &cfg{idx: p.P, j: j, overlaps: &g.over}
 			g.inst.AddProducer(p.Name, (&nodes.Struct[artifact.Artifact, IntsArtifactData]{Data: IntsArtifactData{c: c, In: intss[p.P]}}).Out())
+		case "gltf":
+			// the repository's own scene producer: Models x gltf.ModelNode sharing one mesh node and one material node
+			mesh := (&nodes.Struct[modeling.Mesh, TriMeshData]{Data: TriMeshData{c: &cfg{idx: p.P, j: j, overlaps: &g.over}, N: ints[p.P]}}).Out()
+			rough := (&nodes.Struct[float64, SixteenthData]{Data: SixteenthData{c: &cfg{idx: p.PB, j: j, overlaps: &g.over}, In: floats[p.PB]}}).Out()
+			mat := (&gltf.MaterialNode{Data: gltf.MaterialNodeData{RoughnessFactor: rough}}).Out()
+			var models []nodes.NodeOutput[gltf.PolyformModel]
+			for m := 0; m < p.Models; m++ {
+				models = append(models, (&gltf.ModelNode{Data: gltf.ModelNodeData{Mesh: mesh, Material: mat}}).Out())
+			}
+			g.inst.AddProducer(p.Name, (&gltf.ArtifactNode{Data: gltf.ArtifactNodeData{Models: models}}).Out())
 		default:
 			panic("producer kind " + p.Kind)
 		}
@@ -497,6 +660,9 @@ func parseText(txt string, f []int) ([]int, bool) {
 // decodeArtifact: the bytes an artifact writes -> the values it shows (by producer kind)
 func (g *liveGraph) decodeArtifact(prod int, data []byte) ([]int, bool) {
 	switch g.shape.Prods[prod].Kind {
+	case "gltf":
+		vs, ok := decodeGLB(data)
+		return vs, ok && len(vs) == len(g.prodF[prod])
 	case "bin":
 		v, ok := decodeFile(data)
 		return []int{v}, ok
@@ -569,6 +735,17 @@ func fixedShapes() []*shapeD {
 			},
 			Prods: []prodD{{Name: "a.txt", Node: 7}, {Name: "b.txt", Node: 9}, {Name: "c.txt", Node: 10}},
 		},
+		{ // loaders that fail for some values (behind a shared join) and the repository's glTF scene producer
+			Name: "scene", PTypes: []string{"int", "float", "int", "string", "int"},
+			Nodes: []nodeD{
+				{Kind: "fshow", P: 0}, {Kind: "show", P: 1}, {Kind: "fshow", P: 2}, {Kind: "show", P: 3}, {Kind: "show", P: 4}, // 0-4
+				{Kind: "join", In: []int{0, 3}},    // 5 (shared)
+				{Kind: "join", In: []int{5, 2}},    // 6 -> a.txt [0,3,2]
+				{Kind: "join", In: []int{4, 5, 1}}, // 7 -> b.txt [4,0,3,1]
+			},
+			Prods: []prodD{{Name: "a.txt", Node: 6}, {Name: "b.txt", Node: 7}, {Name: "scene.glb", Kind: "gltf", P: 4, PB: 1, Models: 3},
+				{Name: "pair.glb", Kind: "gltf", P: 0, PB: 1, Models: 2}},
+		},
 		{ // slice-valued parameters: an uploaded file feeding a binary artifact and a text artifact, an int slice
 			Name: "slices", PTypes: []string{"file", "int", "ints", "string", "file"},
 			Nodes: []nodeD{
@@ -597,7 +774,11 @@ func randomShape(r *hx.Rng, k int) *shapeD {
 		if ns := showPool[p]; len(ns) > 0 && r.Chance(1, 2) {
 			return hx.Pick(r, ns)
 		}
-		s.Nodes = append(s.Nodes, nodeD{Kind: "show", P: p})
+		kind := "show"
+		if s.PTypes[p] == "int" && r.Chance(1, 3) {
+			kind = "fshow"
+		}
+		s.Nodes = append(s.Nodes, nodeD{Kind: kind, P: p})
 		showPool[p] = append(showPool[p], len(s.Nodes)-1)
 		return len(s.Nodes) - 1
 	}
@@ -671,6 +852,19 @@ func randomShape(r *hx.Rng, k int) *shapeD {
 	}
 	if len(rest) == 1 {
 		s.Prods = append(s.Prods, prodD{Name: "rest.txt", Node: rest[0]})
+	}
+	// a glTF scene over an int and a float parameter
+	pi, pf := -1, -1
+	for p, t := range s.PTypes {
+		if t == "int" && (pi < 0 || r.Bool()) {
+			pi = p
+		}
+		if t == "float" && (pf < 0 || r.Bool()) {
+			pf = p
+		}
+	}
+	if pi >= 0 && pf >= 0 && r.Chance(1, 2) {
+		s.Prods = append(s.Prods, prodD{Name: "scene.glb", Kind: "gltf", P: pi, PB: pf, Models: r.Range(2, 3)})
 	}
 	// slice-valued parameters also feed artifacts that keep the slice itself
 	for p, t := range s.PTypes {
